@@ -438,3 +438,37 @@ fn battiato_reindex(num_colors: usize, edges: Vec<(usize, usize)>) -> Vec<usize>
     // Return the completed chain
     chains.swap_remove(0)
 }
+
+#[cfg(feature = "verif")]
+pub mod verif_internals {
+    use super::PngImage;
+
+    pub fn most_popular_edge_color(num_colors: usize, png: &PngImage) -> Option<usize> {
+        super::most_popular_edge_color(num_colors, png)
+    }
+    pub fn most_popular_color(num_colors: usize, png: &PngImage) -> (usize, u32) {
+        super::most_popular_color(num_colors, png)
+    }
+    pub fn apply_most_popular_color(png: &PngImage, remapping: &mut [usize]) {
+        super::apply_most_popular_color(png, remapping)
+    }
+    pub fn apply_palette_reorder(png: &PngImage, remapping: &[usize]) -> Option<PngImage> {
+        super::apply_palette_reorder(png, remapping)
+    }
+    pub fn co_occurrence_matrix(num_colors: usize, png: &PngImage) -> Vec<Vec<u32>> {
+        super::co_occurrence_matrix(num_colors, png)
+    }
+    pub fn weighted_edges(matrix: &[Vec<u32>]) -> Vec<(usize, usize)> {
+        super::weighted_edges(matrix)
+    }
+    pub fn mzeng_reindex(
+        num_colors: usize,
+        edges: Vec<(usize, usize)>,
+        matrix: &[Vec<u32>],
+    ) -> Vec<usize> {
+        super::mzeng_reindex(num_colors, edges, matrix)
+    }
+    pub fn battiato_reindex(num_colors: usize, edges: Vec<(usize, usize)>) -> Vec<usize> {
+        super::battiato_reindex(num_colors, edges)
+    }
+}
